@@ -39,7 +39,8 @@ func (t PredefinedTopics) GetTopicName(clientID string, topicID uint16) (string,
 
 // GetTopicID returns a topic ID for the given clientID and topic.
 func (t PredefinedTopics) GetTopicID(clientID, topic string) (uint16, bool) {
-	if tClient, ok := t[clientID]; ok {
+	tClient, hasClient := t[clientID]
+	if hasClient {
 		for topicID, topicName := range tClient {
 			if topicName == topic {
 				return topicID, true
@@ -48,9 +49,15 @@ func (t PredefinedTopics) GetTopicID(clientID, topic string) (uint16, bool) {
 	}
 	if tAll, ok := t["*"]; ok {
 		for topicID, topicName := range tAll {
-			if topicName == topic {
-				return topicID, true
+			if topicName != topic {
+				continue
 			}
+			// The client-specific map takes precedence in GetTopicName,
+			// a "*" topic ID redefined there denotes another topic.
+			if _, shadowed := tClient[topicID]; shadowed {
+				continue
+			}
+			return topicID, true
 		}
 	}
 	return 0, false
